@@ -139,7 +139,14 @@ def pixel_oracle(qm, cells, shape, case, site):
                     exp[iy, ix] = r
         expected[k] = (exp, expwarn)
     before = [cn.indent_canon(g) for g in qm.group]
-    vals = qmap_values(qm)
+    try:
+        vals = qmap_values(qm)
+    except BaseException as e:
+        if isinstance(e, (KeyboardInterrupt, SystemExit, MemoryError)):
+            raise
+        viol("map-raises", type(e).__name__, f"computing the maps raised "
+             f"{e!r}")
+        return out
     if [cn.indent_canon(g) for g in qm.group] != before:
         viol("map-changes-curve", "get_qmap", "computing the maps changed "
              "the state of a curve (fit, columns or remembered rating)")
@@ -232,6 +239,32 @@ def file_case(case):
                                       for g in IndentationGroup(pp)], cb1,
                                  viol)
                 d = d0
+        elif kind == "assembled":
+            # maps of hand-assembled groups: every non-empty subset of the
+            # curves of one map file, in file order and reversed, one after
+            # the other in one process
+            nx, ny = case["shape"]
+            path = os.path.join(d, "map.h5")
+            cells = write_map(path, nx, ny, case["order"], None)
+            src = IndentationGroup(path)
+            for i, idnt in enumerate(src):
+                if i % 3 != 2:
+                    idnt.apply_preprocessing(list(P0))
+                    idnt.fit_model(model_key="hertz_para", weight_cp=0)
+            idx = list(range(len(src)))
+            subsets = [list(c) for r in range(1, len(idx) + 1)
+                       for c in itertools.combinations(idx, r)]
+            if len(subsets) > 40:
+                subsets = subsets[:20] + subsets[-20:]
+            for sub in subsets:
+                for seq in (sub, sub[::-1]):
+                    grp = IndentationGroup()
+                    for i in seq:
+                        grp.append(src[i])
+                    qm = QMap(grp)
+                    sc = dict(case, subset=seq)
+                    out += pixel_oracle(qm, [cells[i] for i in seq],
+                                        (nx, ny), sc, "assembled-group")
         elif kind == "meta":
             if case.get("csv"):
                 path = os.path.join(d, "w.csv")
@@ -387,6 +420,11 @@ def file_cases(tier):
                   "root": ".cache"})
     cases.append({"kind": "file", "sub": "folder", "files": [
         ("x/.y/a.h5", (2, 1)), (".z/b.h5", (1, 1)), ("c.h5", (1, 2))]})
+    for sh, od in (((2, 2), "perm1"), ((3, 1), "rev"), ((2, 3), "serp")):
+        if tier == "quick" and sh == (2, 3):
+            continue
+        cases.append({"kind": "file", "sub": "assembled", "shape": sh,
+                      "order": od})
     for spring, tip in itertools.product((True, False), repeat=2):
         cases.append({"kind": "file", "sub": "meta", "spring": spring,
                       "tip": tip, "override": False})
